@@ -129,7 +129,9 @@ func (d *Decorator) DecorateNode(n ast.Node) (dst.Node, error) {
 		fd.file = f
 	}
 	fd.fragment(n)
+	fd.verifFragments()
 	fd.link()
+	fd.verifLinked()
 
 	out, err := fd.decorateNode(nil, "", "", "", n)
 	if err != nil {
